@@ -91,7 +91,7 @@ def _tail():
 
 
 def src_a(v):
-    return "A%d {{ x }} [{{ self._TemplateReference__context.name }}]" % v + _tail()
+    return "A%d {{ x }} [{{ self }}]" % v + _tail()
 
 
 def src_b(v):
@@ -213,7 +213,7 @@ class DictCache(bcc.BytecodeCache):
 
 
 class FakeError(Exception):
-    pass
+    _vf_injected = True
 
 
 class FakeClient:
@@ -316,13 +316,6 @@ def mkenv(cfg, loader, cache):
     return cls(loader=loader, bytecode_cache=cache, cache_size=0, **kw)
 
 
-def render_raw(env, name):
-    t = env.get_template(name)
-    if env.is_async:
-        return drive(t.render_async(CTX))
-    return t.render(CTX)
-
-
 def render(env, name):
     """Outcome of get_template(name).render(CTX): get_template must not raise (propagates), render outcome is compared."""
     t = env.get_template(name)
@@ -331,6 +324,8 @@ def render(env, name):
             return ("ok", drive(t.render_async(CTX)))
         return ("ok", t.render(CTX))
     except Exception as e:
+        if getattr(e, "_vf_injected", False):     # a fault this scenario injected itself (cache write of an include)
+            raise
         return ("exc", type(e).__name__)
 
 
@@ -512,9 +507,10 @@ class Injector:
         self.snapdir = snapdir
         self.cut = cut
         self.raised = None
+        self.broken = None      # the file object whose write/close the fault hit: its buffered rest never arrives
         self.trace = []
 
-    def point(self, what):
+    def point(self, what, fileobj=None):
         """A point of the write path; at the selected one: snapshot the directory, then raise the fault."""
         i = self.n
         self.n += 1
@@ -531,6 +527,8 @@ class Injector:
             self.raised = MemoryError()
         else:
             self.raised = _Kill()
+        self.raised._vf_injected = True
+        self.broken = fileobj
         raise self.raised
 
 
@@ -557,10 +555,10 @@ class _FileProxy:
             self._disk = limit
 
     def write(self, data):
-        self._inj.point("before-write")
+        self._inj.point("before-write", self)
         self._buf += bytes(data)
         self._sync()
-        self._inj.point("after-write")
+        self._inj.point("after-write", self)
         return len(data)
 
     def flush(self):
@@ -570,8 +568,8 @@ class _FileProxy:
         if self._real.closed:
             return
         try:
-            self._inj.point("before-close")
-            if self._inj.raised is None:     # after a fault the buffered rest never arrives
+            self._inj.point("before-close", self)
+            if self._inj.broken is not self:     # after a fault in this file the buffered rest never arrives
                 self._sync(True)
         finally:
             self._real.close()
@@ -687,7 +685,7 @@ def _crash_native(j, fault, prior, cut=None):
     _install(inj)
     try:
         try:
-            got = ("ok", render_raw(mkenv(cfg, src.loader, be.cache()), S["name"]))
+            got = render(mkenv(cfg, src.loader, be.cache()), S["name"])
         except BaseException as e:   # native code only: no CrossHair control flow can pass here
             if e is not inj.raised:
                 raise
@@ -860,7 +858,7 @@ def _mc_native(faults):
         cl.get_fault, cl.set_fault, cl.raised = _gf(f // SETF), _sf(f % SETF), False
         name = src.names[i % 2]                   # two names alternate
         try:
-            got = ("ok", render_raw(mkenv(cfg, src.loader, be.cache()), name))
+            got = render(mkenv(cfg, src.loader, be.cache()), name)
         except FakeError:
             # only legitimate when errors are not ignored and the client really failed during this load
             if be.ignore or not cl.raised:
